@@ -97,6 +97,7 @@ type Exec struct {
 	variant0     string         // entry value of the function-level decreases measure
 	ssubCache    map[string]string
 	inCatLemma   bool
+	inAliasNoted bool
 	aliasHint    map[string]map[string]bool
 	ifaceStatic  map[string]Val // fresh interface constant -> statically known boxed value
 }
@@ -204,7 +205,11 @@ func (e *Exec) noteAlias(x, sub string) {
 	if e.aliasHint[x] == nil {
 		e.aliasHint[x] = map[string]bool{}
 	}
+	if e.aliasHint[x][sub] {
+		return
+	}
 	e.aliasHint[x][sub] = true
+	e.aliasNoted(x, sub)
 }
 
 func (e *Exec) flag(s string) { e.flags[s] = true }
